@@ -24,13 +24,13 @@ func (p *c11) Exhaustive() bool { return true }
 
 var (
 	c11Forms = []string{"_self.m", "alias.m", "from-import m", "from-import m as n", "from-import m as <name of a registered function>"}
-	c11Uses  = []string{"print", "set", "concat", "argument-of-call", "in-loop", "in-capture", "twice-in-a-row", "in-loop-then-after", "import-computed-in-loop", "in-embedded-and-included-template", "in-block-of-extending-template", "in-top-level-set-of-extending-template"}
+	c11Uses  = []string{"print", "set", "concat", "argument-of-call", "in-loop", "in-capture", "twice-in-a-row", "in-loop-then-after", "import-computed-in-loop", "in-embedded-and-included-template", "in-block-of-extending-template", "in-top-level-set-of-extending-template", "again-after-an-embed-and-an-include-that-define-the-same-names"}
 )
 
 func (p *c11) Init(tier string, seed int64) {
 	p.tier, p.seed = tier, seed
 	p.nEnum = 5 * 7 * len(c11Forms) * len(c11Uses)
-	p.nUnknown = 6
+	p.nUnknown = 9
 	p.nRec = 5 * 3 * 2
 	p.nRand = p.pick(6000, 200000)
 }
@@ -174,7 +174,7 @@ func (p *c11) buildEnum(i int) (*Program, string) {
 	var main []gen.Node
 	ts := map[string]*gen.Template{}
 	if form == 0 {
-		if use != 10 && use != 11 {
+		if use != 10 && use != 11 && use != 12 {
 			main = append(main, m)
 		}
 	} else {
@@ -225,6 +225,28 @@ func (p *c11) buildEnum(i int) (*Program, string) {
 		return &Program{Templates: ts, Main: "main", Ctx: map[string]interface{}{}},
 			fmt.Sprintf("params=%d/args=%d/%s/%s", nparams, nargs, c11Forms[form], c11Uses[use])
 	}
+	if use == 12 {
+		// between two calls the template embeds and includes another one that defines a macro of the same name,
+		// from-imports one under the same name and imports a set under the same alias: the second call is the
+		// first one again
+		if form == 0 {
+			main = append(main, m)
+		}
+		main = append(main, setup...)
+		other := c11macro("m", nparams, tx("@other"))
+		ts["lib2"] = tpl("lib2", c11macro("m", nparams, tx("@lib2")), c11macro("ren_m", nparams, tx("@lib2r")), c11macro("ident", nparams, tx("@lib2i")))
+		inner := []gen.Node{other, &gen.NImport{Tpl: str("lib2"), Alias: "L"}, &gen.NFrom{Tpl: str("lib2"), Names: [][2]string{{"m", "m"}, {"ren_m", "ren_m"}, {"ident", "ident"}}},
+			tx("{inner:"), pr(&gen.EMethod{X: nm("_self"), Name: "m"}), pr(&gen.EMethod{X: nm("L"), Name: "m"}), pr(&gen.ECall{Fn: "m"}), tx("}")}
+		ts["emb"] = tpl("emb", inner...)
+		main = append(main, c11use(0, call)...)
+		main = append(main, tx("E("), &gen.NEmbed{Tpl: str("emb")}, tx(")"))
+		main = append(main, c11use(0, call)...)
+		main = append(main, tx("I("), &gen.NInclude{Tpl: str("emb")}, tx(")"))
+		main = append(main, c11use(0, call)...)
+		ts["main"] = tpl("main", main...)
+		return &Program{Templates: ts, Main: "main", Ctx: map[string]interface{}{}},
+			fmt.Sprintf("params=%d/args=%d/%s/%s", nparams, nargs, c11Forms[form], c11Uses[use])
+	}
 	if use == 11 {
 		// ... and called from an assignment at the top level of that template (the result is printed in a block):
 		// the macro body, and a callback in it, still belong to the template that defines the macro
@@ -265,6 +287,13 @@ func (p *c11) buildUnknown(j int) (*Program, string) {
 	case 4: // unknown inside a loop after a good call
 		body = []gen.Node{&gen.NImport{Tpl: str("lib"), Alias: "L"}, pr(&gen.EMethod{X: nm("L"), Name: "m", Args: []gen.Expr{num(1)}}),
 			&gen.NFor{Val: "i", Seq: &gen.EArr{Els: []gen.Expr{num(1)}}, Body: []gen.Node{pr(&gen.EMethod{X: nm("L"), Name: "M", Args: nil})}}}
+	case 6: // a name that a from-import brought in is no member of an imported set
+		body = []gen.Node{tx("before"), &gen.NImport{Tpl: str("lib"), Alias: "L"}, &gen.NFrom{Tpl: str("lib"), Names: [][2]string{{"m", "x"}}}, pr(&gen.ECall{Fn: "x", Args: []gen.Expr{num(1)}}),
+			pr(&gen.EMethod{X: nm("L"), Name: "x", Args: []gen.Expr{num(1)}}), tx("after")}
+	case 7: // ... nor is a macro of the template itself
+		body = []gen.Node{c11macro("own", 0), tx("before"), &gen.NImport{Tpl: str("lib"), Alias: "L"}, pr(&gen.EMethod{X: nm("_self"), Name: "own"}), pr(&gen.EMethod{X: nm("L"), Name: "own"}), tx("after")}
+	case 8: // ... nor the name of a registered function or of the alias itself
+		body = []gen.Node{tx("before"), &gen.NImport{Tpl: str("lib"), Alias: "L"}, pr(&gen.EMethod{X: nm("L"), Name: "fn", Args: []gen.Expr{str("a")}}), tx("after")}
 	default: // import of a missing template
 		body = []gen.Node{tx("before"), &gen.NImport{Tpl: str("nolib"), Alias: "L"}, tx("after")}
 	}
